@@ -153,6 +153,33 @@ def check_cvc5(smt2, timeout_s=None):
         os.unlink(path)
 
 
+RACE_SEEDS = (3, 11, 42, 1234)
+RACE_TIMEOUT_MS = int(os.environ.get("PYVC_RACE_TIMEOUT_MS", "45000"))
+
+
+def race_job(args):
+    """One extra attempt at an obligation the sequential portfolio left undecided: a fresh solver with another
+    random seed and a longer budget.  Only 'unsat' is ever taken from it (an undecided obligation stays undecided)."""
+    oid, path, seed = args
+    t0 = time.time()
+    try:
+        with open(path) as f:
+            smt2 = f.read()
+        ctx = z3.Context()
+        asserts = list(z3.parse_smt2_string(smt2, ctx=ctx))
+        s = z3.Solver(ctx=ctx)
+        s.set("timeout", RACE_TIMEOUT_MS)
+        if _has_quant(asserts):
+            s.set("smt.mbqi", False)
+        s.set("smt.random_seed", seed)
+        s.add(*asserts)
+        r = str(s.check())
+    except Exception as e:  # solver crash is 'unknown', never a verdict
+        r = "unknown"
+    return {"id": oid, "status": r, "solver": "z3-%s (race, smt.random_seed=%d)" % (z3.get_version_string(), seed), "seconds": time.time() - t0,
+            "model": {}, "rounds": 0, "reason": ""}
+
+
 def _job(args):
     oid, smt2, want, timeout_ms = args
     try:
